@@ -24,6 +24,11 @@ Valid(e) ==
     [] e.op = "ft" -> LET n == Len(e.v0) \div 2 IN Transvect(Transvect(e.v0, e.h0, n), e.h1, n) = e.v1
     [] e.op = "rand" -> LET n == e.n  m == Unpack(e.m, n) IN InRange(e.t, n) /\ IsSymplectic(m, n) /\ e.b = e.t
     [] e.op = "index" -> LET n == e.n  m == Unpack(e.m, n) IN IsSymplectic(m, n) /\ InRange(e.t, n) /\ Unpack(e.m2, n) = m
+    \* events of single calls as the repository's own tests make them (harness/recorder.py)
+    [] e.op = "inv" -> LET n == e.n  m == Unpack(e.m, n)  mi == Unpack(e.mi, n) IN IsSymplectic(m, n) /\ mi = InverseSp(m, n) /\ MatMul(m, mi) = IdM(2*n) /\ MatMul(mi, m) = IdM(2*n)
+    [] e.op = "from_int" -> InRange(e.t, e.n) /\ IsSymplectic(Unpack(e.m, e.n), e.n)
+    [] e.op = "to_int" -> IsSymplectic(Unpack(e.m, e.n), e.n) /\ InRange(e.b, e.n) /\ (e.t0 # <<>> => e.b = e.t0)
+    [] e.op = "member" -> IsSymplectic(Unpack(e.m, e.n), e.n)
     [] OTHER -> FALSE
 Init == l = 1 /\ prev = <<>> /\ TLCSet(1, 0)
 Next == /\ l <= Len(Events)
